@@ -1,6 +1,6 @@
 #!/bin/bash
 # usage: tools/mutrun.sh <patch.diff> <ID> [tier]   -- apply a seeded change to /repo, run the check, undo.
-patch="$1"; id="$2"; tier="${3:-quick}"
+patch="$(readlink -f "$1")"; id="$2"; tier="${3:-quick}"
 cd /verif
 if ! git -C /repo diff --quiet; then echo "/repo has local modifications" >&2; exit 3; fi
 git -C /repo apply "$patch" 2>/dev/null || git -C /repo apply --3way "$patch" 2>/dev/null || { git -C /repo reset -q --hard HEAD; echo "patch does not apply"; exit 3; }
